@@ -44,7 +44,7 @@ WIDEN = 12
 
 def chain_system():
   n = 3
-  sysd = symsys.system('f11', (-1, 0, 1), nq=9, nv=8, nu=2, vel_damping=0, ang_damping=0)
+  sysd = symsys.system('f11', (-1, 0, 1), nq=9, nv=8, nu=2, vel_damping=0, ang_damping=sym('angdamp'))
   sysd.f['dof'] = Struct('DoF', {
       'motion': Struct('Motion', {'ang': symarr('da', (8, 3)), 'vel': symarr('dv', (8, 3))}, home='brax.base'),
       'limit': (symarr('lo', (8,)), symarr('hi', (8,)))})
@@ -60,7 +60,7 @@ def star_system():
   """Free root with three children (one of them with its own child): links with several children."""
   n = 5
   nq, nv = 7 + 4, 6 + 4
-  sysd = symsys.system('f1111', (-1, 0, 0, 0, 2), nq=nq, nv=nv, nu=2, vel_damping=0, ang_damping=0)
+  sysd = symsys.system('f1111', (-1, 0, 0, 0, 2), nq=nq, nv=nv, nu=2, vel_damping=0, ang_damping=sym('angdamp'))
   sysd.f['dof'] = Struct('DoF', {
       'motion': Struct('Motion', {'ang': symarr('da', (nv, 3)), 'vel': symarr('dv', (nv, 3))}, home='brax.base'),
       'limit': (symarr('lo', (nv,)), symarr('hi', (nv,)))})
@@ -74,7 +74,7 @@ def star_system():
 
 def two_body_system():
   n = 2
-  sysd = symsys.system('ff', (-1, -1), nq=14, nv=12, nu=0, vel_damping=0, ang_damping=0)
+  sysd = symsys.system('ff', (-1, -1), nq=14, nv=12, nu=0, vel_damping=0, ang_damping=sym('angdamp'))
   sysd.f['dof'] = Struct('DoF', {
       'motion': Struct('Motion', {'ang': symarr('da', (12, 3)), 'vel': symarr('dv', (12, 3))}, home='brax.base'),
       'limit': None})
@@ -453,6 +453,10 @@ def run(U, rep, tier):
   leaf_laws(U, rep)
   momentum(U, rep, tier)
   rest(U, rep, tier)
+  # R4.6: the pipelines regroup links through scan.tree / scan.link_types / _take -- specified for every forest of the
+  # bounded universe (shared with C01 R1.2)
+  from braxlint.props import c01
+  c01.scan_spec(U, rep, tier, rule='R4.6')
   try:
     one_mass(U, _Hints(rep))
   except AnalysisError as e:
